@@ -70,6 +70,13 @@ func TestC04(t *testing.T) {
 		eds:   []w.EDSOpt{w.WithCanary("1", 10*time.Minute, 0, "auto"), w.WithAuto(true, 1, true, 2)},
 		first: []w.Event{evb("setTemplate", edsKey, "B+nodesel:k=a")}, alpha: &w.Alpha{Kubectl: []string{"canary-validate", "canary-fail"}, PodDev: []string{"unready"}}, budget: 1}
 	scs = append(scs, narrow)
+	// the same with more canary replicas than nodes that fit the new template: the selection reports a shortage at every
+	// reconcile and status.canary.nodes stays empty - a canary on no node at all must not touch any node
+	narrowShort := narrow
+	narrowShort.name = "S3-canary-2-narrow-template-fits-one-node"
+	narrowShort.nodes = []string{"n1:k=a", "n2", "n3"}
+	narrowShort.eds = []w.EDSOpt{w.WithCanary("2", 10*time.Minute, 0, "auto"), w.WithAuto(true, 1, true, 2)}
+	scs = append(scs, narrowShort)
 	if h.Thorough() {
 		faulty := canaryDev()
 		faulty.EDSFaults = []string{"lost:update ExtendedDaemonSet", "reject:list Node", "reject:list Pod"}
@@ -77,7 +84,7 @@ func TestC04(t *testing.T) {
 		scsExtra := corpusS3(n3, "2", "auto", 1, faulty)
 		scsExtra.name = "S3-canary-2-auto-with-faults"
 		n4 := []string{"n1", "n2", "n3", "n4"}
-		scs = []scOpt{scsExtra, edits, labelled, narrow, corpusS3(n3, "1", "auto", 2, canaryDev()), corpusS3(n4, "50%", "auto", 2, canaryDev()), corpusS3(n4, "2", "manual", 1, canaryDev())}
+		scs = []scOpt{scsExtra, edits, labelled, narrow, narrowShort, corpusS3(n3, "1", "auto", 2, canaryDev()), corpusS3(n4, "50%", "auto", 2, canaryDev()), corpusS3(n4, "2", "manual", 1, canaryDev())}
 	}
 	runWorld(t, run, scs, []func(*w.MonCtx){w.MonC04}, 0)
 	requireAntecedents(run, "C04a/new-template-create", "C04c/active-sync-during-canary", "C04d/label-expected", "C04b/selection")
